@@ -624,6 +624,9 @@ pub struct QueryGenConfig {
     /// C09 "loose" mode: sometimes use any operator on any property and any tag as operand, whatever the types; the
     /// frontend decides what is accepted (the harness's own annotator is not consulted for such queries)
     pub loose_types: bool,
+    /// bias towards regex / not_regex filters on String properties with tag operands (the engine compiles tagged regexes
+    /// at run time, per value: the one place where a process-wide cache would be tempting; used by C24)
+    pub regex_bias: bool,
 }
 
 impl Default for QueryGenConfig {
@@ -639,6 +642,7 @@ impl Default for QueryGenConfig {
             fold_bias: false,
             allow_sideways_recursion: false,
             loose_types: false,
+            regex_bias: false,
         }
     }
 }
@@ -910,7 +914,8 @@ fn gen_filter(
         return Filter { op, arg: None };
     }
     // tag argument?
-    if c.chance(110) {
+    let tag_chance = if ctx.cfg.regex_bias && matches!(op, Op::Regex | Op::NotRegex) { 210 } else { 110 };
+    if c.chance(tag_chance) {
         let loose_tag = ctx.cfg.loose_types && c.chance(90);
         let cands: Vec<GTag> = ctx
             .tags
@@ -995,8 +1000,9 @@ fn gen_body(
             if c.chance(50) {
                 sel.alias = Some(ctx.fresh("a"));
             }
+            let regex_bias = ctx.cfg.regex_bias && !pt.is_list() && pt.base == "String";
             // tag (defined before this property's own filters are generated: same-vertex use is legal)
-            if c.chance(80) {
+            if c.chance(if regex_bias { 170 } else { 80 }) {
                 let explicit = c.chance(180);
                 let name = if explicit {
                     ctx.fresh("t")
@@ -1029,7 +1035,10 @@ fn gen_body(
             if ctx.cfg.loose_types && c.chance(90) {
                 ops = crate::values::ALL_OPS.to_vec();
             }
-            let n_f = if c.chance(110) { 1 + c.chance(50) as usize } else { 0 };
+            if regex_bias && c.chance(170) {
+                ops = vec![Op::Regex, Op::NotRegex];
+            }
+            let n_f = if c.chance(if regex_bias { 200 } else { 110 }) { 1 + c.chance(50) as usize } else { 0 };
             for _ in 0..n_f {
                 let f = gen_filter(ctx, c, &pt, &ops, vid, path);
                 sel.filters.push(f);
